@@ -828,6 +828,9 @@ impl<'tcx> Dumper<'tcx> {
                             ("vi", J::Num(variant_index.as_u32() as i128)),
                         ]));
                     }
+                    mir::StatementKind::StorageDead(l) => {
+                        stmts.push(J::Obj(vec![("k", s("StorageDead")), ("l", J::Num(l.as_u32() as i128))]));
+                    }
                     mir::StatementKind::Intrinsic(i) => {
                         stmts.push(J::Obj(vec![("k", s("Intrinsic")), ("txt", s(format!("{:?}", i)))]));
                     }
